@@ -59,6 +59,12 @@ impl Drop for Writer<'_> {
     }
 }
 
+#[cfg(feature = "verif")]
+impl Writer<'_> {
+    /// Verification hook: size of the internal buffer, so simulated writes can aim at its boundary.
+    pub const VERIF_BUF_SIZE: usize = Writer::BUF_SIZE;
+}
+
 pub trait Writable {
     fn write(&self, writer: &mut Writer);
 }
